@@ -444,6 +444,9 @@ fn replay(a: &HashMap<String, String>) -> i32 {
         if observed["out"] == "panic" {
             diffs.push("parse panicked".into());
         }
+        if observed["out"] == "settings-routes-disagree" {
+            diffs.push("a parser configured through ParserSettings and one configured through the setters disagree".into());
+        }
         if v["ok"].as_bool() != Some(ok) {
             diffs.push(format!("parse verdict: expected ok={} observed ok={}", v["ok"], ok));
         } else if ok {
